@@ -75,7 +75,7 @@ def plan(tier, seed):
         sh += [{'kind': 'random', 'count': 300, 'L': 3, 'sthin': 60, 'name': 'rand%d' % k} for k in range(8)]
         return sh
     sh = [{'kind': 'enum', 'k': k, 'n': 16, 'L': 4, 'sthin': 23, 'pthin': 2, 'name': 'enum%d' % k} for k in range(16)]
-    sh += [{'kind': 'random', 'count': 2500, 'L': 4, 'sthin': 41, 'name': 'rand%d' % k} for k in range(16)]
+    sh += [{'kind': 'random', 'count': 2500, 'L': 4, 'sthin': 800, 'name': 'rand%d' % k} for k in range(16)]
     return sh
 
 
